@@ -520,6 +520,10 @@ class VBSClusteringManager:
                 return False
             if self._join_substate is not _JoinSubstate.NONE:
                 return False  # already in a join procedure
+            if self._leave_substate is not _LeaveSubstate.NONE:
+                # The leave indication of the previous cluster is still being
+                # sent; clusterJoinInfo would replace it in the VAMs.
+                return False
 
             self._join_substate = _JoinSubstate.NOTIFY
             self._join_target_cluster_id = cluster_id
